@@ -29,19 +29,31 @@ def isoLink (g : Graph) (trees : List SPTree) (all : List Cand) (c : Cand) : Opt
       some (isoLookup all v pe)
     else none
 
-/-- connected components of the candidate graph by label propagation: every vertex ends up labelled with
-the smallest vertex index of its component -/
-def isoComponents (nv : Nat) (links : List (Nat × Nat)) : Array Nat := Id.run do
-  let mut lab : Array Nat := Array.range nv
-  for _ in [0:nv] do
-    let mut changed := false
-    for (a, b) in links do
-      if a < nv ∧ b < nv then
-        let la := lab[a]!; let lb := lab[b]!
-        if la < lb then lab := lab.set! b la; changed := true
-        else if lb < la then lab := lab.set! a lb; changed := true
-    if !changed then break
-  return lab
+/-- one link of the label propagation: both ends take the smaller of their two labels -/
+def relaxLink (lab : Array Nat) (ab : Nat × Nat) : Array Nat :=
+  if ab.1 < lab.size ∧ ab.2 < lab.size then
+    let la := lab[ab.1]!
+    let lb := lab[ab.2]!
+    if la < lb then lab.set! ab.2 la
+    else if lb < la then lab.set! ab.1 lb
+    else lab
+  else lab
+
+/-- one sweep over all links -/
+def sweepLinks (links : List (Nat × Nat)) (lab : Array Nat) : Array Nat := links.foldl relaxLink lab
+
+/-- at most `k` sweeps, stopping at the first sweep that changes nothing -/
+def sweepN (links : List (Nat × Nat)) : Nat → Array Nat → Array Nat
+  | 0, lab => lab
+  | k + 1, lab =>
+    let lab' := sweepLinks links lab
+    if lab' == lab then lab else sweepN links k lab'
+
+/-- connected components of the candidate graph (`boost::connected_components`) by label propagation: `nv` sweeps
+reach the fixpoint in which every vertex is labelled with the smallest vertex index of its component
+(`Lemmas/IsoComp.lean`) -/
+def isoComponents (nv : Nat) (links : List (Nat × Nat)) : Array Nat :=
+  sweepN links nv (Array.range nv)
 
 /-- `ISOCyclesBuilder::operator()`: (trees, emitted candidates) -/
 def isoCands (g : Graph) : List SPTree × List Cand :=
